@@ -451,4 +451,112 @@ lemma zipWith_sub_swap : ∀ (l₁ l₂ : List ℚ),
     congr 1
     ring
 
+/-! ## default names, dictionaries: lengths and prefixes -/
+
+lemma defaultNames_length (name : String) (n : ℕ) : (defaultNames name n).length = n := by
+  unfold defaultNames
+  split
+  · rename_i h; simp [h]
+  · simp
+
+lemma zip_take_left {α β : Type} : ∀ (ks : List α) (vs : List β), ks.zip vs = (ks.take vs.length).zip vs
+  | [], _ => by simp
+  | _ :: _, [] => by simp
+  | k :: ks, v :: vs => by simp [zip_take_left ks vs]
+
+lemma dictInsert_length_le {β : Type} (d : List (String × β)) (k : String) (v : β) :
+    (dictInsert d k v).length ≤ d.length + 1 := by
+  unfold dictInsert
+  split <;> simp
+
+lemma foldl_dictInsert_length_le {β : Type} (l : List (String × β)) :
+    ∀ acc : List (String × β),
+      (l.foldl (fun d kv => dictInsert d kv.1 kv.2) acc).length ≤ acc.length + l.length := by
+  induction l with
+  | nil => intro acc; simp
+  | cons kv l ih =>
+    intro acc
+    simp only [List.foldl_cons, List.length_cons]
+    have := ih (dictInsert acc kv.1 kv.2)
+    have := dictInsert_length_le acc kv.1 kv.2
+    omega
+
+lemma dictOfZip_length_le {β : Type} (ks : List String) (vs : List β) :
+    (dictOfZip ks vs).length ≤ ks.length := by
+  unfold dictOfZip
+  have := foldl_dictInsert_length_le (ks.zip vs) []
+  simp only [List.length_nil, List.length_zip, zero_add] at this
+  omega
+
+lemma dictOfZip_take {β : Type} (ks : List String) (vs : List β) :
+    dictOfZip ks vs = dictOfZip (ks.take vs.length) vs := by
+  unfold dictOfZip
+  rw [← zip_take_left]
+
+lemma range_map_getD_eq_take (names : List String) (d : ℕ) (hd : d ≤ names.length) :
+    (List.range d).map (fun i => names.getD i "") = names.take d := by
+  apply List.ext_getElem
+  · simp [hd]
+  · intro i h1 h2
+    simp only [List.length_map, List.length_range] at h1
+    have hi : i < names.length := by omega
+    rw [List.getElem_map, List.getElem_range, List.getD_eq_getElem _ _ hi, List.getElem_take]
+
+/-! ## `ci_width` in closed form -/
+
+lemma ciWidth_eq (s : Samples) (p : ℚ) (h0 : 0 ≤ p) (h100 : p ≤ 100) :
+    s.ciWidth p = .ok ((List.range s.dim).map (fun k =>
+      percentile (s.chain k) (100 - (100 - p) / 2) - percentile (s.chain k) ((100 - p) / 2))) := by
+  unfold Samples.ciWidth Samples.computeCi
+  rw [ciLevels_ok p h0 h100]
+  show Except.ok _ = Except.ok _
+  unfold Samples.stat
+  rw [List.zipWith_map, List.zipWith_self]
+
+/-! ## entrywise affine map of a Samples object -/
+
+/-- the stored samples mapped entrywise by `x ↦ a·x + b` (what `funvals` produces under the driver's
+    geometry kind `map:<a>:<b>:aff` = `Conv.affine a b`) -/
+def Samples.affine (s : Samples) (a b : ℚ) : Samples :=
+  { s with cols := s.cols.map (fun c => c.map (fun x => a * x + b)) }
+
+lemma affine_chain (s : Samples) (hwf : ∀ c ∈ s.cols, c.length = s.dim) (a b : ℚ) (k : ℕ) (hk : k < s.dim) :
+    (s.affine a b).chain k = (s.chain k).map (fun x => a * x + b) := by
+  unfold Samples.affine Samples.chain
+  simp only [List.map_map]
+  apply List.map_congr_left
+  intro c hc
+  have h1 : k < c.length := by rw [hwf c hc]; exact hk
+  simp only [Function.comp]
+  rw [List.getD_eq_getElem _ 0 (by simpa using h1), List.getD_eq_getElem _ 0 h1, List.getElem_map]
+
+lemma stat_affine (s : Samples) (hwf : ∀ c ∈ s.cols, c.length = s.dim) (hN : s.cols ≠ []) (a b : ℚ)
+    (g g' : List ℚ → ℚ) (h : ℚ → ℚ)
+    (hg : ∀ xs : List ℚ, xs ≠ [] → g (xs.map (fun x => a * x + b)) = h (g' xs)) :
+    (s.affine a b).stat g = (s.stat g').map h := by
+  unfold Samples.stat
+  rw [List.map_map]
+  show (List.range s.dim).map _ = _
+  apply List.map_congr_left
+  intro k hk
+  rw [List.mem_range] at hk
+  have hne : s.chain k ≠ [] := by
+    unfold Samples.chain
+    intro h'
+    exact hN (List.map_eq_nil_iff.mp h')
+  simp only [Function.comp]
+  rw [affine_chain s hwf a b k hk, hg _ hne]
+
+/-! ## `Forall₂` by position -/
+
+lemma forall₂_getElem? {α β : Type} {R : α → β → Prop} {l₁ : List α} {l₂ : List β}
+    (h : List.Forall₂ R l₁ l₂) : ∀ (j : ℕ) (a : α), l₁[j]? = some a → ∃ b, l₂[j]? = some b ∧ R a b := by
+  induction h with
+  | nil => intro j a ha; simp at ha
+  | cons hab _ ih =>
+    intro j a ha
+    cases j with
+    | zero => simp only [List.getElem?_cons_zero, Option.some.injEq] at ha; subst ha; exact ⟨_, by simp, hab⟩
+    | succ j => simp only [List.getElem?_cons_succ] at ha ⊢; exact ih j a ha
+
 end CuqiVerif.C19
